@@ -40,8 +40,9 @@ VARIABLES ent,     \* [Replicas -> [AllIds -> entry]]
           cnf,     \* [Replicas -> SUBSET conflict records]
           ruv,     \* [Replicas -> SUBSET Cids]
           nrepl, nwrites,
-          hist     \* sequence of operations performed (exported for replay; hidden by VIEW)
-vars == <<ent, cnf, ruv, nrepl, nwrites, hist>>
+          hist,    \* sequence of operations performed (exported for replay; hidden by VIEW)
+          arms     \* which arms of the consumer's apply logic the last exchange took (coverage export; hidden)
+vars == <<ent, cnf, ruv, nrepl, nwrites, hist, arms>>
 View == <<ent, cnf, ruv, nrepl, nwrites>>
 
 \* ---------------------------------------------------------------- L0: entries
@@ -86,6 +87,7 @@ Write(r, u, newe, c, op) ==
   /\ ruv' = [ruv EXCEPT ![r] = @ \cup {c}]
   /\ nwrites' = nwrites + 1
   /\ Log(op)
+  /\ arms' = {}
   /\ UNCHANGED <<cnf, nrepl>>
 
 \* attrunique on create / rename: refused when another NORMAL entry on this replica has the name
@@ -165,6 +167,17 @@ ApplyOne(c, inc, db) ==
              cf |-> IF db.at[2] = c THEN {[src_at |-> db.at, nm |-> db.nm, dn |-> db.dn]} ELSE {}]
   ELSE [e |-> MergeLive(inc, db), cf |-> {}]
 
+\* name of the arm ApplyOne takes (for transition coverage of replayed behaviours)
+Arm(inc, db) ==
+  IF inc.k = "tomb" THEN (IF db.k = "tomb" THEN "tomb-tomb" ELSE IF db.k = "absent" THEN "tomb-absent" ELSE "tomb-over-live")
+  ELSE IF db.k = "tomb" THEN "live-onto-tomb"
+  ELSE IF db.k = "absent" THEN "new-entry"
+  ELSE IF inc.at # db.at THEN (IF CidLt(db.at, inc.at) THEN "addconflict-keep" ELSE "addconflict-replace")
+  ELSE IF db.cls = "r" /\ "cls" \notin inc.sent THEN "merge-into-recycled"
+  ELSE IF "cls" \in inc.sent /\ inc.cls = "r" /\ db.cls = "n" THEN "merge-recycle"
+  ELSE IF "cls" \in inc.sent /\ inc.cls = "n" /\ db.cls = "r" THEN "merge-revive"
+  ELSE "merge"
+
 Repl(s, c, ts) ==
   /\ s # c /\ nrepl < MaxRepl
   /\ LET d == RangeDiff(Ranges(ruv[c]), Ranges(ruv[s]))
@@ -180,17 +193,25 @@ Repl(s, c, ts) ==
          sentcf == {x \in cnf[s] : InWin(x.ccid)}
      IN IF d.status # "ok" \/ DOMAIN d.ok = {}
         THEN /\ UNCHANGED <<ent, cnf, ruv, nwrites>>
+             /\ arms' = {IF d.status = "ok" THEN "nothing-to-supply" ELSE "refused-" \o d.status}
              /\ nrepl' = nrepl + 1
              /\ Log([op |-> "repl", from |-> s, to |-> c, t |-> OwnMax(c), expect |-> d.status])
-        ELSE /\ ent' = [ent EXCEPT ![c] = [u \in AllIds |-> IF u \in touched THEN res(u).e ELSE ent[c][u]]]
-             /\ IF newcf = {}
-                  THEN /\ cnf' = [cnf EXCEPT ![c] = @ \cup sentcf]
-                       /\ ruv' = [ruv EXCEPT ![c] = @ \cup {x \in ruv[s] : InWin(x)}]
-                       /\ ts = OwnMax(c)
-                  ELSE /\ Stamp(c, ts)       \* the consumer's transaction creates entries: own change id
-                       /\ cnf' = [cnf EXCEPT ![c] = @ \cup sentcf \cup {[x EXCEPT !.ccid = <<ts, c>>] :
-                                      x \in {[src_at |-> y.src_at, nm |-> y.nm, dn |-> y.dn, ccid |-> NoCid] : y \in newcf}}]
-                       /\ ruv' = [ruv EXCEPT ![c] = @ \cup {x \in ruv[s] : InWin(x)} \cup {<<ts, c>>}]
+        ELSE LET merged == [u \in AllIds |-> IF u \in touched THEN res(u).e ELSE ent[c][u]]
+                 \* post-replication attrunique: every party to a clash on the unique attribute goes to
+                 \* the conflict state (class change under the consumer's own change id)
+                 clash == IF ~EnableRename THEN {}
+                          ELSE {u \in AllIds : IsNormal(merged[u]) /\
+                                  \E v \in AllIds \ {u} : IsNormal(merged[v]) /\ merged[v].nm = merged[u].nm}
+                 stamp == newcf # {} \/ clash # {}
+             IN
+             /\ IF stamp THEN Stamp(c, ts) /\ (NoSkew => \A x \in {y \in ruv[s] : InWin(y)} : ts > x[1]) ELSE ts = OwnMax(c)
+             /\ ent' = [ent EXCEPT ![c] = [u \in AllIds |->
+                           IF u \in clash THEN [merged[u] EXCEPT !.cls = "c", !.ch["cls"] = <<ts, c>>] ELSE merged[u]]]
+             /\ cnf' = [cnf EXCEPT ![c] = @ \cup sentcf \cup
+                           {[src_at |-> y.src_at, nm |-> y.nm, dn |-> y.dn, ccid |-> <<ts, c>>] : y \in newcf}]
+             /\ ruv' = [ruv EXCEPT ![c] = @ \cup {x \in ruv[s] : InWin(x)} \cup (IF stamp THEN {<<ts, c>>} ELSE {})]
+             /\ arms' = {Arm(Msg(u), ent[c][u]) : u \in touched} \cup (IF clash # {} THEN {"unique-clash"} ELSE {})
+                        \cup (IF newcf # {} THEN {"conflict-copy-created"} ELSE {})
              /\ nrepl' = nrepl + 1
              /\ UNCHANGED nwrites
              /\ Log([op |-> "repl", from |-> s, to |-> c, t |-> ts, expect |-> "ok"])
@@ -200,7 +221,7 @@ Init ==
   /\ ent = [r \in Replicas |-> [u \in AllIds |-> IF u \in Ids THEN NewLive(<<0, 1>>, DefName(u)) ELSE Absent]]
   /\ cnf = [r \in Replicas |-> {}]
   /\ ruv = [r \in Replicas |-> {<<0, 1>>}]
-  /\ nrepl = 0 /\ nwrites = 0 /\ hist = <<>>
+  /\ nrepl = 0 /\ nwrites = 0 /\ hist = <<>> /\ arms = {}
 
 LocalWrite ==
   \E r \in Replicas, u \in AllIds, ts \in 1..MaxTs :
